@@ -588,6 +588,7 @@ func (v *fnVC) loopHeader(b *ssa.BasicBlock, st *State) *State {
 	for i, c := range li.invs {
 		x := v.exFor(pre, v.entry, nil)
 		x.resolve = v.resolver(b, pre, entryVars)
+		x.resolveAddr = v.addrResolver(b)
 		g := x.Bool(c.Expr)
 		v.oblige("inv-entry", fmt.Sprintf("loop%d.inv%s:entry", li.ordinal, clauseTag(c, i)), v.propsOf(c), c.Expr, v.pos(b.Instrs[0].Pos()), v.reach[b.Index], g, pre)
 	}
@@ -615,6 +616,7 @@ func (v *fnVC) loopHeader(b *ssa.BasicBlock, st *State) *State {
 	for _, c := range li.invs {
 		x := v.exFor(hst, v.entry, nil)
 		x.resolve = v.resolver(b, hst, nil)
+		x.resolveAddr = v.addrResolver(b)
 		e.assume(tImp(v.reach[b.Index], x.Bool(c.Expr)))
 	}
 	return hst
@@ -652,6 +654,7 @@ func (v *fnVC) backEdge(u, h *ssa.BasicBlock, ec *T, st *State) {
 	for i, c := range li.invs {
 		x := v.exFor(st, v.entry, nil)
 		x.resolve = v.resolver(h, st, vars)
+		x.resolveAddr = v.addrResolver(h)
 		g := x.Bool(c.Expr)
 		v.oblige("inv-preserved", fmt.Sprintf("loop%d.inv%s:preserved@b%d", li.ordinal, clauseTag(c, i), u.Index), v.propsOf(c), c.Expr, v.pos(h.Instrs[0].Pos()), ec, g, st)
 	}
@@ -1088,4 +1091,26 @@ func (v *fnVC) havocNext(st *State) {
 	n := v.e.freshConst("Hl$next", sInt)
 	v.e.assume(mk(sapp(">=", n.S, old.S), sBool))
 	st.set(allocHeap, n)
+}
+
+// addrResolver maps the name of an address-taken local variable to its address.
+func (v *fnVC) addrResolver(b *ssa.BasicBlock) func(string) *T {
+	return func(name string) *T {
+		for i := range v.dbg[name] {
+			d := &v.dbg[name][i]
+			if d.isAddr && (d.blk == b || d.blk.Dominates(b)) {
+				return v.val(d.x)
+			}
+		}
+		for _, blk := range v.fn.Blocks {
+			for _, in := range blk.Instrs {
+				if al, ok := in.(*ssa.Alloc); ok && al.Comment == name {
+					if t, ok := v.vals[al]; ok {
+						return t
+					}
+				}
+			}
+		}
+		return nil
+	}
 }
